@@ -112,6 +112,8 @@ fn run_case(rt: &tokio::runtime::Runtime, case: &Case) -> RunResult {
     // ghost, environment side: fetches that were requested and for which no BlockFetched /
     // BlockFetchFailed / removal naming that very (peer, id, hash) has been delivered yet
     let mut in_flight: BTreeSet<(u64, u64, u64)> = BTreeSet::new();
+    // ghost: (peer, id, hash) announced so far
+    let mut announced: BTreeSet<(u64, u64, u64)> = BTreeSet::new();
 
     for (k, op) in case.ops.iter().enumerate() {
         let mut sel_rows: Vec<Vec<u64>> = vec![];
@@ -201,6 +203,28 @@ fn run_case(rt: &tokio::runtime::Runtime, case: &Case) -> RunResult {
         if stats.len() != snap.len() {
             res.oracle_failures
                 .push(format!("op {}: get_stats reports {} peers, {} are tracked", k, stats.len(), snap.len()));
+        }
+        // every tracked entry was announced for that peer: by the peer itself, or -- a block wanted
+        // from "any peer" (index 0) -- for a peer that has a fetch url. An entry at a peer without
+        // url can never be requested and is discarded for ALL peers by the routing layer
+        if let Op::Add { hash, id, peer } = op {
+            if *peer == 0 {
+                for p in &case.url_peers {
+                    announced.insert((*p, *id, *hash));
+                }
+            } else {
+                announced.insert((*peer, *id, *hash));
+            }
+        }
+        for (p, v) in &snap {
+            for e in v {
+                if !announced.contains(&(*p, e.0, e.1)) {
+                    res.oracle_failures.push(format!(
+                        "op {}: peer {} tracks block ({},{}) that was never announced for it (a block wanted from any peer goes to peers with a fetch url only: {:?})",
+                        k, p, e.0, e.1, case.url_peers
+                    ));
+                }
+            }
         }
         match op {
             Op::Fetched { hash } | Op::Remove { hash } => in_flight.retain(|x| x.2 != *hash),
